@@ -242,6 +242,37 @@ static void prog_ipc (void) {
 	if (sb) { B ("p_shm_buffer_write"); E (p_shm_buffer_write (sb, (ppointer) "abc", 3, NULL) == 3, 1, 1); B ("p_shm_buffer_read"); E (p_shm_buffer_read (sb, buf, 8, NULL) == 3, 1, 1);
 		  B ("p_shm_buffer_free"); p_shm_buffer_take_ownership (sb); p_shm_buffer_free (sb); E (1, 1, 1); }
 }
+/* a second handle is attached to a segment / buffer whose creator is alive, and that attach runs out of memory: whatever the call
+ * returns, the object that existed before stays what it was - a later opener of the name finds the creator's data, not a fresh object */
+static void prog_ipc_attach (void) {
+	char name[128]; PShmBuffer *a, *b, *c; PShm *s, *t, *u; int pres, sv;
+	snprintf (name, sizeof name, "%s_at", prefix);
+	sv = tracking; tracking = 0;
+	a = p_shm_buffer_new (name, 64, NULL); if (a) p_shm_buffer_write (a, (ppointer) "hello", 5, NULL);
+	tracking = sv;
+	if (a) {
+		B ("p_shm_buffer_new"); b = p_shm_buffer_new (name, 64, NULL);
+		sv = tracking; tracking = 0;
+		c = p_shm_buffer_new (name, 64, NULL); pres = c != NULL && p_shm_buffer_get_used_space (c, NULL) == 5 && p_shm_buffer_get_used_space (a, NULL) == 5; if (c) p_shm_buffer_free (c);
+		tracking = sv;
+		E (b != NULL, 1, pres);
+		if (b) { B ("p_shm_buffer_free"); p_shm_buffer_free (b); E (1, 1, 1); }
+		sv = tracking; tracking = 0; p_shm_buffer_take_ownership (a); p_shm_buffer_free (a); tracking = sv;
+	}
+	snprintf (name, sizeof name, "%s_as", prefix);
+	sv = tracking; tracking = 0;
+	s = p_shm_new (name, 300, P_SHM_ACCESS_READWRITE, NULL); if (s) ((char *) p_shm_get_address (s))[7] = 77;
+	tracking = sv;
+	if (s) {
+		B ("p_shm_new"); t = p_shm_new (name, 300, P_SHM_ACCESS_READONLY, NULL);
+		sv = tracking; tracking = 0;
+		u = p_shm_new (name, 0, P_SHM_ACCESS_READWRITE, NULL); pres = u != NULL && p_shm_get_size (u) >= 300 && ((char *) p_shm_get_address (u))[7] == 77; if (u) p_shm_free (u);
+		tracking = sv;
+		E (t != NULL, 1, pres);
+		if (t) { B ("p_shm_free"); p_shm_free (t); E (1, 1, 1); }
+		sv = tracking; tracking = 0; p_shm_take_ownership (s); p_shm_free (s); tracking = sv;
+	}
+}
 static void prog_sync (void) {
 	PMutex *m; PCondVariable *c; PSpinLock *s; PRWLock *r; PTimeProfiler *t;
 	B ("p_mutex_new"); m = p_mutex_new (); E (m != NULL, 1, 1); if (m) { B ("p_mutex_lock"); E (p_mutex_lock (m), 1, 1); B ("p_mutex_unlock"); E (p_mutex_unlock (m), 1, 1); B ("p_mutex_free"); p_mutex_free (m); E (1, 1, 1); }
@@ -399,7 +430,7 @@ static void prog_misc (void) {
 }
 typedef struct { const char *name; void (*fn) (void); } Prog;
 static Prog PROGS[] = { { "tree_bst", prog_tree_bst }, { "tree_rb", prog_tree_rb }, { "tree_avl", prog_tree_avl }, { "hash_list", prog_hash_list }, { "ini", prog_ini }, { "hashes", prog_hashes },
-			{ "error_string", prog_error_string }, { "dir", prog_dir }, { "sockaddr", prog_sockaddr }, { "socket", prog_socket }, { "ipc", prog_ipc }, { "sync", prog_sync },
+			{ "error_string", prog_error_string }, { "dir", prog_dir }, { "sockaddr", prog_sockaddr }, { "socket", prog_socket }, { "ipc", prog_ipc }, { "ipc_attach", prog_ipc_attach }, { "sync", prog_sync },
 			{ "thread", prog_thread }, { "loader", prog_loader },
 			{ "errors", prog_errors }, { "socket_udp", prog_socket_udp }, { "thread2", prog_thread2 }, { "misc", prog_misc }, { NULL, NULL } };
 
